@@ -1812,8 +1812,15 @@ func clampBeforeUse(e *Env, rule string) {
 	}
 	n, bad := 0, ""
 	isClamped := func(v ssa.Value) bool {
-		_, ok := isCallTo(v, "net/blockwise.getSzx")
-		return ok
+		if _, ok := isCallTo(v, "net/blockwise.getSzx"); ok {
+			return true
+		}
+		if c, ok := core.Resolve(core.Unwrap(v)).(*ssa.Call); ok {
+			if b, isB := c.Call.Value.(*ssa.Builtin); isB && b.Name() == "min" {
+				return true // the clamp written with the builtin
+			}
+		}
+		return false
 	}
 	core.Instrs(f, func(in ssa.Instruction) {
 		c, ok := in.(*ssa.Call)
